@@ -15,7 +15,7 @@ MARKUP = ['{w}', '*{w}* x', '`{w}` y', '[{w}](/u) z', '**{w}**']
 
 def describe(tier):
     return dict(max_headings=BOUNDS[tier], levels='1-6', spellings=['atx', 'setext for levels 1-2'], placements=['top', 'quote', 'list item'],
-                title_markup=MARKUP, depth='1-6', omit_title=[True, False], filters='none / title contains "zz" for every subset (<=3 headings) or single heading')
+                title_markup=MARKUP, titles=['all distinct', 'all equal'], depth='1-6', omit_title=[True, False], filters='none / title contains "zz" for every subset (<=3 headings) or single heading')
 
 
 def outlines(n):
@@ -50,12 +50,12 @@ def jobs(tier):
     return js
 
 
-def write_doc(levels, spell, place, marks, zz):
+def write_doc(levels, spell, place, marks, zz, repeat=False):
     """returns (markdown, [(level, plain title)])"""
     lines = []
     heads = []
     for i, lv in enumerate(levels):
-        w = 'w%d' % (i + 1) + ('zz' if i in zz else '')
+        w = ('w' if repeat else 'w%d' % (i + 1)) + ('zz' if i in zz else '')
         title = MARKUP[marks[i]].format(w=w)
         plain = title.replace('*', '').replace('`', '').replace('[', '').replace('](/u)', '')
         heads.append((lv, plain))
@@ -145,7 +145,9 @@ def configs_for(levels):
                 continue
             for zz in zzs:
                 for marks in markss:
-                    yield spell, place, marks, zz
+                    yield spell, place, marks, zz, False
+                if n >= 2:
+                    yield spell, place, markss[0], zz, True      # every heading carries the same title
 
 
 def run_job(job):
@@ -153,8 +155,8 @@ def run_job(job):
     r = core.Result()
     outs = list(outlines(n))[lo:hi]
     for levels in outs:
-        for spell, place, marks, zz in configs_for(levels):
-            md, heads = write_doc(levels, spell, place, marks, zz)
+        for spell, place, marks, zz, repeat in configs_for(levels):
+            md, heads = write_doc(levels, spell, place, marks, zz, repeat)
             r.states += 1
             for depth in range(1, 7):
                 for omit in (True, False):
